@@ -1,6 +1,7 @@
 package sym
 
 import (
+	"os"
 	"bufio"
 	"fmt"
 	"io"
@@ -32,6 +33,11 @@ type Solver struct {
 	Err       error // sticky: any (error ...) line or protocol failure
 	buf       strings.Builder
 	TimeoutMs int
+	pendingPops int
+	guards      map[int32]bool
+	depth       int
+	scoped      [][]int32  // term ids defined at each push level
+	scopedFuns  [][]string
 }
 
 type Result int
@@ -70,7 +76,12 @@ func NewSolver(tb *TB, kind string, timeoutMs int) (*Solver, error) {
 		return nil, err
 	}
 	s := &Solver{tb: tb, cmd: cmd, in: in, out: bufio.NewReaderSize(outp, 1<<16), funs: map[string]bool{},
-		cache: map[[2]int32]Result{}, Kind: kind, TimeoutMs: timeoutMs}
+		cache: map[[2]int32]Result{}, Kind: kind, TimeoutMs: timeoutMs, guards: map[int32]bool{}}
+	if lf := os.Getenv("GOSYM_SMTLOG"); lf != "" {
+		if f, err := os.Create(lf); err == nil {
+			s.Log = f
+		}
+	}
 	if kind == "cvc5" {
 		s.send("(set-logic ALL)\n")
 	} else {
@@ -131,6 +142,9 @@ func (s *Solver) sync() ([]string, error) {
 		}
 		if line != "" {
 			lines = append(lines, line)
+			if s.Log != nil {
+				io.WriteString(s.Log, "; <- "+line+"\n")
+			}
 		}
 	}
 	return lines, s.Err
@@ -201,7 +215,33 @@ func (s *Solver) define(root *Term) {
 	}
 }
 
+func (s *Solver) push() {
+	s.send("(push 1)\n")
+	s.depth++
+	s.scoped = append(s.scoped, nil)
+	s.scopedFuns = append(s.scopedFuns, nil)
+}
+
+func (s *Solver) pop() {
+	s.send("(pop 1)\n")
+	if s.depth == 0 {
+		return
+	}
+	s.depth--
+	for _, id := range s.scoped[s.depth] {
+		s.emitted[id] = false
+	}
+	for _, f := range s.scopedFuns[s.depth] {
+		delete(s.funs, f)
+	}
+	s.scoped = s.scoped[:s.depth]
+	s.scopedFuns = s.scopedFuns[:s.depth]
+}
+
 func (s *Solver) emitOne(t *Term) {
+	if s.depth > 0 && t.Op != OpConst {
+		s.scoped[s.depth-1] = append(s.scoped[s.depth-1], t.ID)
+	}
 	switch t.Op {
 	case OpConst:
 		return
@@ -214,6 +254,9 @@ func (s *Solver) emitOne(t *Term) {
 	case OpRead:
 		if !s.funs[t.Name] {
 			s.funs[t.Name] = true
+			if s.depth > 0 {
+				s.scopedFuns[s.depth-1] = append(s.scopedFuns[s.depth-1], t.Name)
+			}
 			s.send("(declare-fun m_" + t.Name + " ((_ BitVec 64)) (_ BitVec 8))\n")
 		}
 		body = "(m_" + t.Name + " " + s.ref(t.Args[0]) + ")"
@@ -243,6 +286,39 @@ func (s *Solver) Check(a, b *Term) Result {
 	return r
 }
 
+// flatten appends the conjuncts of t (a tree of OpAnd) to out.
+func flattenAnd(t *Term, out []*Term, seen map[int32]bool) []*Term {
+	stack := []*Term{t}
+	for len(stack) > 0 {
+		x := stack[len(stack)-1]
+		stack = stack[:len(stack)-1]
+		if x.Op == OpAnd {
+			stack = append(stack, x.Args[1], x.Args[0])
+			continue
+		}
+		if x.IsTrue() || seen[x.ID] {
+			continue
+		}
+		seen[x.ID] = true
+		out = append(out, x)
+	}
+	return out
+}
+
+// guard returns the name of the Boolean guard literal for conjunct c, asserting (=> g c) once.
+func (s *Solver) guard(c *Term) string {
+	name := "g" + strconv.Itoa(int(c.ID))
+	if !s.guards[c.ID] {
+		s.define(c)
+		s.guards[c.ID] = true
+		s.send("(declare-const " + name + " Bool)\n(assert (=> " + name + " " + s.ref(c) + "))\n")
+	}
+	return name
+}
+
+// check decides (a ∧ b) with check-sat-assuming over per-conjunct guard literals: every conjunct is
+// asserted once at level 0 as (=> guard conjunct), so the solver keeps its internalised form and
+// learned clauses across the thousands of queries of a job (no push/pop).
 func (s *Solver) check(a, b *Term, keep bool) (Result, error) {
 	tb := s.tb
 	if a == nil {
@@ -268,16 +344,18 @@ func (s *Solver) check(a, b *Term, keep bool) (Result, error) {
 		return ResUnknown, s.Err
 	}
 	start := time.Now()
-	s.define(a)
-	s.define(b)
-	s.send("(push 1)\n")
-	if !a.IsTrue() {
-		s.send("(assert " + s.ref(a) + ")\n")
+	seen := map[int32]bool{}
+	conj := flattenAnd(a, nil, seen)
+	conj = flattenAnd(b, conj, seen)
+	var sb strings.Builder
+	for _, c := range conj {
+		if c.IsFalse() {
+			return ResUnsat, nil
+		}
+		sb.WriteString(" ")
+		sb.WriteString(s.guard(c))
 	}
-	if !b.IsTrue() {
-		s.send("(assert " + s.ref(b) + ")\n")
-	}
-	s.send("(check-sat)\n")
+	s.send("(check-sat-assuming (" + sb.String() + " ))\n")
 	lines, err := s.sync()
 	s.Queries++
 	res := ResUnknown
@@ -301,10 +379,11 @@ func (s *Solver) check(a, b *Term, keep bool) (Result, error) {
 	default:
 		s.Unknown++
 	}
-	if !keep || res != ResSat {
-		s.send("(pop 1)\n")
+	d := time.Since(start)
+	s.Time += d
+	if s.Log != nil {
+		fmt.Fprintf(s.Log, "; query %d took %v conjuncts=%d result=%v\n", s.Queries, d, len(conj), res)
 	}
-	s.Time += time.Since(start)
 	s.cache[key] = res
 	return res, err
 }
@@ -328,10 +407,10 @@ func (s *Solver) CheckModel(a, b *Term, extra ...*Term) (Result, *Model) {
 	return r, &Model{s}
 }
 
-func (m *Model) Release() {
-	m.s.send("(pop 1)\n")
-	m.s.sync()
-}
+func (m *Model) Release2() {}
+
+// Release ends the use of the model (the model of a check-sat-assuming stays valid until the next check).
+func (m *Model) Release() {}
 
 // Eval returns the values of the given terms in the current model.
 func (m *Model) Eval(ts []*Term) ([]uint64, error) {
